@@ -47,6 +47,7 @@ def run(ctx):
         ctx.call(pcw_rules.accept_once, prog, "R3")
         ctx.call(bounds_rules.validation_before_update, prog, "R3")
         ctx.call(pcw_rules.packet_rules, prog, "R4", "R5", "R6")
+        ctx.call(pcw_rules.packet_capacity_units, prog, "R5")
         ctx.call(pcw_rules.raw_reader_count, prog, "R7")
         ctx.call(pcw_rules.pop_point_order, prog, "R7")
         ctx.call(width_rules.width_formula, prog, "R9")
